@@ -115,6 +115,12 @@ def include_docs():
             "minimumSize { width: 1; height: 2 }", "font.bold: true; sizePolicy.horizontalStretch: s.value; minimumSize.width: 3"]
     needs = ["minimumWidth: Math.max(s.value, 1)", "maximumWidth: Math.min(s.value, 9)", "onWindowTitleChanged: console.log(1)",
              "windowOpacity: d.value % 2.0", "onWindowTitleChanged: { let m = Math.max(s.value, 2); s.value = m }"]
+    # one object needing two or all three headers in different bindings (every subset and order of three needs)
+    three = ["toolTip: { console.log(s.value); return \"t\"; }", "minimumWidth: Math.max(s.value, 1)", "windowOpacity: d.value % 2.0",
+             "onWindowTitleChanged: console.log(1)", "maximumWidth: Math.min(s.value, 9)", "statusTip: { console.warn(d.value); return \"u\"; }"]
+    for n_ in (2, 3):
+        for combo in itertools.permutations(three, n_):
+            yield (f"include-multi/{'-'.join(str(three.index(c)) for c in combo)}", head + "    QLabel { " + "; ".join(combo) + " }\n}\n")
     for i, sib in enumerate(sibs):
         for j, need in enumerate(needs):
             yield (f"include/{i}/{j}", head + f"    QLabel {{ {sib}; {need} }}\n}}\n")
@@ -136,8 +142,27 @@ def error_docs():
             yield (f"c05/{cid}", src)
 
 
+def naming_docs():
+    """Anonymous objects whose class prefixes overlap (label / label1, widget / widget1): names must not depend
+    on the process either."""
+    from checks import c10
+    import qml
+    picked = 0
+    for k, (seq, nest) in enumerate(c10.sequences("quick")):
+        anon = [c for (c, i) in seq if i is None]
+        # >= 2 anonymous objects of a class with prefix p together with an anonymous one of a class with prefix p1
+        overlap = (anon.count("QLabel") >= 2 and "QLabel1" in anon) or \
+            (anon.count("QWidget") >= 2 and ("QWidget1" in anon or "Widget1" in anon)) or \
+            (anon.count("QLabel") >= 1 and "QLabel1" in anon and len(anon) >= 3)
+        if overlap or (len(anon) >= 2 and len(set(anon)) >= 2 and k % 37 == 0):
+            root, _o = c10.build(seq, nest)
+            picked += 1
+            yield (f"names/{k}", qml.render(root, oneline=True))
+
+
 def docs_for(tier):
     docs = list(RICH)
+    docs += list(naming_docs())[: (400 if tier == "quick" else 4000)]
     docs += list(catalogue_docs())
     docs += list(include_docs())
     docs += list(error_docs())
